@@ -178,6 +178,10 @@ pub fn l3_alphabet(cfg: Config) -> Vec<Block> {
             Block::Step(vec![t("Rest "), c(Comp::new(Kind::Igr, "dough").mods("&").inter(true, false, 1)), t(" for "), c(Comp::new(Kind::Tm, "").qty(Val::Int(5), Some("min")))]),
             Block::Step(vec![t("Use "), c(Comp::new(Kind::Igr, "base").mods("&").inter(false, true, 1)), t(" and "), c(Comp::new(Kind::Igr, "first").mods("&").inter(false, false, 1))]),
             Block::Step(vec![t("Use "), c(Comp::new(Kind::Igr, "prev").mods("&?").inter(true, true, 1))]),
+            // absolute / relative step references on their own and two steps back: a step number is not a content
+            // index once a paragraph precedes the step (round 7, C01-r7a)
+            Block::Step(vec![t("Bake the "), c(Comp::new(Kind::Igr, "dough").mods("&").inter(false, false, 1))]),
+            Block::Step(vec![t("Glaze the "), c(Comp::new(Kind::Igr, "second").mods("&").inter(false, false, 2)), t(" and the "), c(Comp::new(Kind::Igr, "back").mods("&").inter(true, false, 2))]),
             Block::Step(vec![t("Use "), c(Comp::new(Kind::Igr, "a")), t(" and "), c(Comp::new(Kind::Igr, "a").qty(Val::Int(3), Some("g"))), t(" in "), c(Comp::new(Kind::Cw, "p"))]),
             Block::Step(vec![t("Use "), c(Comp::new(Kind::Igr, "a").mods("+").qty(Val::Int(7), Some("g")))]),
             Block::Step(vec![t("Take "), c(Comp::new(Kind::Cw, "p").mods("+").qty(Val::Int(2), None))]),
